@@ -19,5 +19,6 @@ for C in "$@"; do
   echo "$TAG $C exit=$rc $(grep -m1 -A1 '^VIOLATION' "$D/out-$C.log" | tr '\n' ' ' | cut -c1-300)"
   grep "^$C quick" "$D/out-$C.log" | tail -1
 done
+mkdir -p /tmp/me-replays/$TAG; for C in "$@"; do cp "$D"/verif/replays/$C/new-*.json /tmp/me-replays/$TAG/ 2>/dev/null; cp "$D/out-$C.log" /tmp/me-replays/$TAG/ 2>/dev/null; done
 git -C /repo worktree remove --force "$D/repo"
 rm -rf "$D"
